@@ -318,6 +318,43 @@ def loop_of(fn, node, where):
     return f"mkLoop {it} {bd} {'true' if total else 'false'}"
 
 
+def nwchem_control(tree):
+    """The branch structure of NWChem.get_keywords that decides WHETHER a multiplicity line is written."""
+    fn = find_function(tree, "get_keywords")
+    loop = [n for n in fn.body if isinstance(n, ast.For) and ast.unparse(n.iter) == "calc_input.keywords"]
+    if len(loop) != 1:
+        raise Untranslatable("NWChem.get_keywords: keyword loop not found")
+    chain = [n for n in loop[0].body if isinstance(n, ast.If) and "opt" in ast.unparse(n.test)]
+    if len(chain) != 1:
+        raise Untranslatable("NWChem.get_keywords: the if/elif chain that appends the keywords was not found")
+    tests, node = [], chain[0]
+    while True:
+        tests.append((ast.unparse(node.test), ast.unparse(ast.Module(body=node.body, type_ignores=[]))))
+        if len(node.orelse) == 1 and isinstance(node.orelse[0], ast.If):
+            node = node.orelse[0]
+        else:
+            break
+    order = [t for t, _ in tests]
+    want = ["'opt' in keyword.lower() and molecule.n_atoms == 1", "keyword.lower().startswith('dft')",
+            "keyword.lower().startswith('scf')"]
+    if order[:3] != want:
+        raise Untranslatable(f"NWChem.get_keywords: branch order {order[:3]} != {want}")
+    if "lines.insert(1, f'  mult {molecule.mult}')" not in tests[1][1] or "new_keywords.append(new_keyword)" not in tests[1][1]:
+        raise Untranslatable("NWChem.get_keywords: the dft branch no longer inserts `mult` and appends the block")
+    if "if not any(('nopen' in kw for kw in new_keywords)):" not in tests[2][1] or \
+            "lines.insert(1, f'  nopen {molecule.mult - 1}')" not in tests[2][1]:
+        raise Untranslatable("NWChem.get_keywords: the scf branch no longer inserts `nopen` once")
+    tail = [n for n in fn.body if isinstance(n, ast.If) and "new_keywords.insert(1" in ast.unparse(n)]
+    if len(tail) != 1 or tail[0].orelse or "nopen {molecule.mult - 1}" not in ast.unparse(tail[0]):
+        raise Untranslatable("NWChem.get_keywords: the trailing scf/nopen insertion was not found")
+    t = ast.unparse(tail[0].test)
+    if t == "not any((kw.lower().startswith('dft') for kw in new_keywords)) and (not any(('nopen' in kw.lower() for kw in new_keywords)))":
+        return "GuardNoDftNoNopen"
+    if t == "any(('task scf' in kw.lower() for kw in new_keywords)) and (not any(('nopen' in kw.lower() for kw in new_keywords)))":
+        return "GuardTaskScfNoNopen"
+    return f"(GuardOther {coq_str(t[:200])})"
+
+
 def coq_str(s):
     if any(ord(c) < 32 or ord(c) > 126 for c in s):
         raise Untranslatable(f"non-printable / non-ASCII literal {s!r}")
@@ -415,6 +452,7 @@ def main():
     xoff = xtb_cart_offset(xtree)
     asrc = open(os.path.join(REPO, "autode/atoms.py")).read()
     atree = ast.parse(asrc)
+    nwg = nwchem_control(cache["autode/wrappers/NWChem.py"][1])
     mll, nel = max_label_len(atree)
     check_atom_validation(atree)
     check_g16(open(os.path.join(REPO, "autode/wrappers/G16.py")).read())
@@ -430,6 +468,9 @@ def main():
          f"Definition max_label_len : nat := {mll}%nat.",
          "(* XTB.print_cartesian_constraints: sorted(int(i) + c for i in constraints.cartesian) *)",
          f"Definition xtb_cart_offset : Z := ({xoff})%Z.", "",
+         "(* NWChem.get_keywords: branch order (single-atom `opt` rewrite, dft -> mult, scf -> nopen once) is checked by the",
+         "   translator; the guard of the trailing `scf / nopen` insertion is: *)",
+         f"Definition nwchem_tail_guard : nw_guard := {nwg}.", "",
          "Definition lines : list (program * lkind * list item) := ["]
     body = []
     for prog, k, line, w in rows:
